@@ -51,6 +51,8 @@ CASTS = [(), (("str", "bool"),), (("str", "int"),), "both"]
 
 def schemas(tier):
     conds = list(LEAVES)
+    conds += [("or", C5_LEAVES[32], C5_LEAVES[0]), ("and", C5_LEAVES[33], C5_LEAVES[13]), ("xor", C5_LEAVES[34], C5_LEAVES[2]),
+              ("or", ("and", C5_LEAVES[11], C5_LEAVES[32]), C5_LEAVES[10])]
     if tier == "thorough":
         for op in ("and", "or", "xor"):
             for a, b in itertools.combinations(SUB6, 2):
